@@ -146,6 +146,8 @@ fn kv_json(kv: &[(Vec<u8>, String)]) -> J {
 }
 
 struct Ctx<'a, H: HashAlgorithm> {
+    tt: &'a TermTrie,
+    foreign: HashMap<[u8; 32], u32>,
     sp: &'a Space,
     case: &'a Case,
     root: [u8; 32],
@@ -342,7 +344,7 @@ fn run_case<H: HashAlgorithm>(case: &Case, scratch: &Path, out: &mut dyn Write) 
     let sess = nomt.begin_session(params);
     let store_root = sess.prev_root().into_inner();
 
-    let mut ctx: Ctx<H> = Ctx { sp: &sp, case, root, out, n: 0, _m: std::marker::PhantomData };
+    let mut ctx: Ctx<H> = Ctx { tt: &tt, foreign: HashMap::new(), sp: &sp, case, root, out, n: 0, _m: std::marker::PhantomData };
     writeln!(ctx.out, "{}", json!({"k":"root","case":case.id,"kv":kv_json(&case.kv),"rootTerm":root_term.to_json(),
                                    "storeRootEqualsTermRoot": store_root == root, "mode": case.mode}))?;
     ctx.n += 1;
@@ -511,6 +513,37 @@ fn run_case<H: HashAlgorithm>(case: &Case, scratch: &Path, out: &mut dyn Write) 
     Ok(n)
 }
 
+/// The MultiProof object itself in term form, for Trie!VerifyMulti.
+fn lift_multi<H: HashAlgorithm>(ctx: &mut Ctx<H>, mp: &MultiProof) -> J {
+    let sp = ctx.sp;
+    let mut paths = Vec::new();
+    for p in &mp.paths {
+        let t = match &p.terminal {
+            PathProofTerminal::Leaf(ld) => {
+                let kb = bits_of(&ld.key_path, sp.l);
+                let mut val = "?".to_string();
+                if sp.real_key(&kb) == ld.key_path {
+                    for v in &ctx.case.vals {
+                        if H::hash_value(&sp.value_bytes(&kb, v)) == ld.value_hash {
+                            val = v.clone();
+                        }
+                    }
+                }
+                json!({"kind":"L","key":kb,"val":val})
+            }
+            PathProofTerminal::Terminator(pos) => {
+                let d = (pos.depth() as usize).min(sp.l);
+                let bits: Vec<u8> = pos.path().iter().by_vals().take(d).map(|b| b as u8).collect();
+                json!({"kind":"T","pos":bits})
+            }
+        };
+        paths.push(json!({"terminal": t, "depth": p.depth}));
+    }
+    let tt = ctx.tt;
+    let sibs: Vec<J> = mp.siblings.iter().map(|n| tt.term_of(n, &mut ctx.foreign).to_json()).collect();
+    json!({"paths": paths, "sibs": sibs})
+}
+
 fn ans3(a: std::thread::Result<Result<bool, proof::KeyOutOfScope>>) -> &'static str {
     match a {
         Err(_) => "PANIC",
@@ -535,8 +568,9 @@ fn multi_record<H: HashAlgorithm>(
     let case = ctx.case;
     let root = ctx.root;
     let res = catch_unwind(AssertUnwindSafe(|| proof::verify_multi_proof::<H>(mp, root)));
+    let mpj = lift_multi::<H>(ctx, mp);
     let mut rec = json!({"k":"multi","case":case.id,"kv":kv_json(&case.kv),"keys":keys_json,"paths":paths_json,"src":src,
-                         "npaths": mp.paths.len(), "nsibs": mp.siblings.len(), "storeRootOk": store_root == root});
+                         "npaths": mp.paths.len(), "nsibs": mp.siblings.len(), "storeRootOk": store_root == root, "mp": mpj});
     match res {
         Err(_) => {
             rec["verify"] = json!("PANIC");
